@@ -392,6 +392,7 @@ class Interp:
             base = op.replace("Unchecked", "")
             lo, hi = self.arith(base, alo, ahi, blo, bhi, aty)
             rty = ty if is_int_ty(ty) else aty
+            nowrap = base in ("Add", "Sub") and lo is not None and self.fits(lo, hi, rty)
             if base == "Shl" and not self.fits(lo, hi, rty) and blo is not None and blo == bhi and ty_range(rty) and ty_range(rty)[0] == 0 and 0 <= blo < 64:
                 # bits shifted out are dropped; the low `k` bits of the result are zero
                 lo, hi = 0, ty_range(rty)[1] + 1 - (1 << blo)
@@ -411,6 +412,15 @@ class Interp:
                         lo, hi = prev
                 st.iv[ns] = (lo, hi)
                 st.cells[key] = ns
+                # unchecked a + b / a - b that provably cannot wrap (release profile): same order facts as the
+                # checked forms get when their overflow assert passes
+                if nowrap and base == "Add":
+                    if asid is not None and blo is not None and blo >= 0:
+                        st.rel.add((asid, "<=", ns))
+                    if bsid is not None and alo is not None and alo >= 0:
+                        st.rel.add((bsid, "<=", ns))
+                if nowrap and base == "Sub" and asid is not None and blo is not None and blo >= 0:
+                    st.rel.add((ns, "<=", asid))
                 # relational: x / c <= x ; x & m <= x ; x >> k <= x ; x % m < m
                 if base in ("Div", "Shr", "BitAnd") and asid is not None and alo is not None and alo >= 0 and (blo is None or blo >= 0):
                     st.rel.add((ns, "<=", asid))
@@ -1284,7 +1294,48 @@ class Interp:
             if tgt is not None:
                 self.copy_cells(st, tgt, dest)
             return "pure"
+        # --- position-preserving iteration: `c.iter()` / `.enumerate()` keep the identity of the collection they walk,
+        #     so that an enumerate index is known to be a position in that collection
+        if p in ("core::slice::iter", "core::slice::iter_mut") and len(args) == 1:
+            tgt = self.ref_target(st, args[0])
+            if tgt is not None:
+                ns = self.new_sym(("iterof", at), None, None, frozenset(), ("iterof", tgt), dty)
+                st.cells[dest] = ns
+            return "pure"
+        if p == "core::iter::traits::iterator::Iterator::enumerate" and len(args) == 1:
+            src = op_place(args[0])
+            sid0 = st.cells.get(place_key(src)) if src is not None else None
+            d0 = self.syms[sid0].defn if sid0 is not None else None
+            if d0 and d0[0] == "iterof":
+                ns = self.new_sym(("enumof", at), None, None, frozenset(), ("enumof", d0[1]), dty)
+                st.cells[dest] = ns
+            return "pure"
+        if p == "core::iter::traits::iterator::Iterator::next" and full.startswith("<core::iter::adapters::enumerate::Enumerate<core::slice::iter::Iter"):
+            tgt = self.ref_target(st, args[0])
+            sid0 = st.cells.get(tgt) if tgt is not None else None
+            d0 = self.syms[sid0].defn if sid0 is not None else None
+            if d0 and d0[0] == "enumof":
+                coll = d0[1]
+                lk = coll + ("#len",)
+                ls = st.cells.get(lk)
+                if ls is None:
+                    lo0 = 1 if ("nonempty", coll) in st.facts else 0
+                    ls = self.new_sym(("lenof", at, "enum"), lo0, LEN_MAX, frozenset(["LEN"]), ("len", coll), "usize")
+                    st.iv[ls] = (lo0, LEN_MAX)
+                    st.cells[lk] = ls
+                ns = self.set_dest(st, dest, ("as Some", ".0", ".0"), 0, LEN_MAX - 1, frozenset(["LEN"]), at, ("enumitem", coll, ls), "usize")
+                st.rel.add((ns, "<", ls))
+                es = self.new_sym(("enumelem", at), None, None, frozenset(), ("elemof", coll, ns), None)
+                st.cells[dest + ("as Some", ".0", ".1")] = es
+                return "range"
         if p in ("core::ops::index::Index::index", "core::ops::index::IndexMut::index_mut") and len(args) == 2:
+            ipl0 = op_place(args[1])
+            if ipl0 is not None and is_int_ty(ipl0["ty"]):
+                tgt0 = self.ref_target(st, args[0])
+                isid0 = self.read_op(st, args[1], at)[0]
+                if tgt0 is not None and isid0 is not None:
+                    es = self.new_sym(("idxelem", at), None, None, frozenset(), ("elemof", tgt0, isid0), dty)
+                    st.cells[dest] = es
             ipl = op_place(args[1])
             if ipl is not None and ipl["ty"].startswith("core::ops::range::Range<"):
                 ikey = self.norm_target(st, place_key(ipl))
